@@ -2,6 +2,7 @@ package main
 
 import (
 	"fmt"
+	"go/ast"
 	"go/constant"
 	"go/token"
 	"go/types"
@@ -20,6 +21,7 @@ type enumShape struct {
 	N       int64  // loop bound of the bitmask renderer
 	sep     string // separator used by Marshal (bitmask)
 	usep    string // separator used by Unmarshal (bitmask)
+	table   string // N == -2: name of the flag table the renderer iterates over
 	probs   []string
 	undec   string
 }
@@ -140,39 +142,73 @@ func classifyEnum(c *Ctx, pk, typ string) *enumShape {
 			}
 		}
 		if es.N < 0 {
-			es.undec = "bit loop bound not found"
-			return es
-		}
-		// mask = E(1 << i); test (e & mask) == mask; lookup labels[mask]
-		maskS := typ + "((1 << " + ex(iv) + "))"
-		maskS2 := short + "." + maskS
-		if maskPhi != nil {
-			if lk.Index != ssa.Value(maskPhi) {
-				es.probs = append(es.probs, "label looked up for "+ex(lk.Index)+" instead of the single-bit mask of the loop")
-			}
-		} else if s := ex(lk.Index); s != maskS && s != maskS2 && s != "(1 << "+ex(iv)+")" {
-			es.probs = append(es.probs, "label looked up for "+s+" instead of the single-bit mask 1<<i")
-		}
-		okTest := false
-		for _, iff := range ifsIn(m) {
-			s := ex(iff.Cond)
-			if strings.HasPrefix(s, "((recv & ") && strings.Contains(s, "(1 << ") && strings.Contains(s, ") == ") {
-				okTest = true
-			}
-			if strings.HasPrefix(s, "((recv & ") && strings.Contains(s, "(1 << ") && strings.HasSuffix(s, ") != 0)") {
-				okTest = true
-			}
-			if b, isB := iff.Cond.(*ssa.BinOp); isB && maskPhi != nil && (b.Op == token.EQL || b.Op == token.NEQ) {
-				// (e & mask) == mask   /   (e & mask) != 0
-				if and, isAnd := b.X.(*ssa.BinOp); isAnd && and.Op == token.AND && ex(and.X) == "recv" && and.Y == ssa.Value(maskPhi) {
-					if k, isK := constInt(b.Y); (b.Op == token.EQL && b.Y == ssa.Value(maskPhi)) || (b.Op == token.NEQ && isK && k == 0) {
-						okTest = true
+			// third loop form: the flags come from a table (for _, flag := range flags_E): the label is looked up for
+			// the table element, which is rendered exactly when the value contains all of its bits
+			if ld, isLd := lk.Index.(*ssa.UnOp); isLd && ld.Op == token.MUL {
+				if ia, isIA := ld.X.(*ssa.IndexAddr); isIA && inLoop(ld.Block()) {
+					tbl := ex(ia.X)
+					es.N = -2
+					es.table = tbl[strings.LastIndex(tbl, ".")+1:]
+					okTest, partial := false, false
+					for _, iff := range ifsIn(m) {
+						b, isB := iff.Cond.(*ssa.BinOp)
+						if !isB {
+							continue
+						}
+						and, isAnd := b.X.(*ssa.BinOp)
+						if !isAnd || and.Op != token.AND || !((ex(and.X) == "recv" && ex(and.Y) == ex(ld)) || (ex(and.Y) == "recv" && ex(and.X) == ex(ld))) {
+							continue
+						}
+						if b.Op == token.EQL && ex(b.Y) == ex(ld) {
+							okTest = true
+						} else if k, isK := constInt(b.Y); isK && k == 0 && b.Op == token.NEQ {
+							partial = true
+						}
+					}
+					if partial && !okTest {
+						es.probs = append(es.probs, "a table entry is rendered when the value shares any bit with it (e&flag != 0): an entry made of several bits is rendered for values that contain only some of them, and the text parses back to a different value")
+					} else if !okTest {
+						es.probs = append(es.probs, "no `e&flag == flag` test selects the table entries to render")
 					}
 				}
 			}
 		}
-		if !okTest {
-			es.probs = append(es.probs, "no `e & (1<<i)` test selects the flags to render")
+		if es.N == -1 {
+			es.undec = "bit loop bound not found"
+			return es
+		}
+		if es.N != -2 {
+			// mask = E(1 << i); test (e & mask) == mask; lookup labels[mask]
+			maskS := typ + "((1 << " + ex(iv) + "))"
+			maskS2 := short + "." + maskS
+			if maskPhi != nil {
+				if lk.Index != ssa.Value(maskPhi) {
+					es.probs = append(es.probs, "label looked up for "+ex(lk.Index)+" instead of the single-bit mask of the loop")
+				}
+			} else if s := ex(lk.Index); s != maskS && s != maskS2 && s != "(1 << "+ex(iv)+")" {
+				es.probs = append(es.probs, "label looked up for "+s+" instead of the single-bit mask 1<<i")
+			}
+			okTest := false
+			for _, iff := range ifsIn(m) {
+				s := ex(iff.Cond)
+				if strings.HasPrefix(s, "((recv & ") && strings.Contains(s, "(1 << ") && strings.Contains(s, ") == ") {
+					okTest = true
+				}
+				if strings.HasPrefix(s, "((recv & ") && strings.Contains(s, "(1 << ") && strings.HasSuffix(s, ") != 0)") {
+					okTest = true
+				}
+				if b, isB := iff.Cond.(*ssa.BinOp); isB && maskPhi != nil && (b.Op == token.EQL || b.Op == token.NEQ) {
+					// (e & mask) == mask   /   (e & mask) != 0
+					if and, isAnd := b.X.(*ssa.BinOp); isAnd && and.Op == token.AND && ex(and.X) == "recv" && and.Y == ssa.Value(maskPhi) {
+						if k, isK := constInt(b.Y); (b.Op == token.EQL && b.Y == ssa.Value(maskPhi)) || (b.Op == token.NEQ && isK && k == 0) {
+							okTest = true
+						}
+					}
+				}
+			}
+			if !okTest {
+				es.probs = append(es.probs, "no `e & (1<<i)` test selects the flags to render")
+			}
 		}
 		for _, ci := range callsNamed(m, "strings.Join") {
 			if cs, ok := ci.Common().Args[1].(*ssa.Const); ok && cs.Value != nil && cs.Value.Kind() == constant.String {
@@ -317,6 +353,9 @@ func checkEnumType(c *Ctx, p *packages.Package, pk, typ string, tn *types.TypeNa
 	kind := "plain"
 	if es.bitmask {
 		kind = fmt.Sprintf("bitmask, %d bit positions", es.N)
+		if es.N == -2 {
+			kind = "bitmask, flags from table " + es.table
+		}
 	}
 	r.Check(len(es.probs) == 0, r1, key, c.Pos(tn.Pos()), kind, strings.Join(es.probs, "; "))
 	// R19.2
@@ -348,7 +387,34 @@ func checkEnumType(c *Ctx, p *packages.Package, pk, typ string, tn *types.TypeNa
 	}
 	r.Check(len(probs) == 0, r2, key, c.Pos(tn.Pos()), fmt.Sprintf("%d constants ↔ names", len(consts)), strings.Join(probs, "; "))
 	// R19.3
-	if es.bitmask {
+	if es.bitmask && es.N == -2 {
+		// table-driven renderer: a value survives iff it is the union of the table entries it contains
+		tbl, okT := evalSliceLit(p, es.table)
+		if !okT {
+			r.Broken(r3, key, "the flag table "+es.table+" is not a constant slice literal")
+			return
+		}
+		anyBad := false
+		for _, k := range consts {
+			v, ok := constant.Uint64Val(k.Val())
+			if !ok {
+				continue
+			}
+			var u uint64
+			for _, f := range tbl {
+				if f != 0 && v&f == f {
+					u |= f
+				}
+			}
+			if u != v {
+				anyBad = true
+				r.Fail(r3, pk+"."+k.Name(), c.Pos(k.Pos()), fmt.Sprintf("%s = %d does not survive MarshalText/UnmarshalText: the entries of %s it contains add up to %d", k.Name(), v, es.table, u))
+			}
+		}
+		if !anyBad {
+			r.OK(r3, key, c.Pos(tn.Pos()), fmt.Sprintf("all %d constants are unions of entries of %s", len(consts), es.table))
+		}
+	} else if es.bitmask {
 		single := map[uint]bool{}
 		for _, k := range consts {
 			if v, ok := constant.Uint64Val(k.Val()); ok && v != 0 && v&(v-1) == 0 {
@@ -452,4 +518,40 @@ func strKeys(m map[string]string) []string {
 	}
 	sort.Strings(ks)
 	return ks
+}
+
+// evalSliceLit: the constant elements of a package-level slice / array literal.
+func evalSliceLit(p *packages.Package, name string) ([]uint64, bool) {
+	for _, f := range p.Syntax {
+		for _, d := range f.Decls {
+			gd, ok := d.(*ast.GenDecl)
+			if !ok {
+				continue
+			}
+			for _, sp := range gd.Specs {
+				vs, ok := sp.(*ast.ValueSpec)
+				if !ok || len(vs.Names) != 1 || vs.Names[0].Name != name || len(vs.Values) != 1 {
+					continue
+				}
+				cl, ok := vs.Values[0].(*ast.CompositeLit)
+				if !ok {
+					return nil, false
+				}
+				var out []uint64
+				for _, el := range cl.Elts {
+					v := p.TypesInfo.Types[el].Value
+					if v == nil {
+						return nil, false
+					}
+					u, ok := constant.Uint64Val(v)
+					if !ok {
+						return nil, false
+					}
+					out = append(out, u)
+				}
+				return out, true
+			}
+		}
+	}
+	return nil, false
 }
